@@ -33,7 +33,7 @@ type cfg struct {
 var cfgs = []cfg{
 	{id: "C05", sticky: true, equality: false,
 		gopts: func(r *core.Rng, i int) hist.GenOpts {
-			return hist.GenOpts{Set: gen.SetOpts{FailMembers: 1 + r.Intn(2)}, MaxOps: 12, Clones: i%4 == 0}
+			return hist.GenOpts{Set: gen.SetOpts{FailMembers: 1 + r.Intn(2)}, MaxOps: 12, Clones: i%4 == 0, NewOps: i%5 == 0}
 		},
 		n: func(c *core.Ctx) int { return c.N(40000, 400000) }},
 	{id: "C06", equality: true,
@@ -43,7 +43,7 @@ var cfgs = []cfg{
 		n: func(c *core.Ctx) int { return c.N(40000, 400000) }},
 	{id: "C07", equality: true, freeze: true,
 		gopts: func(r *core.Rng, i int) hist.GenOpts {
-			return hist.GenOpts{Set: gen.SetOpts{FailMembers: r.Intn(2)}, MaxOps: 16, Clones: true, ParseAfter: true, ExtraDefs: true}
+			return hist.GenOpts{Set: gen.SetOpts{FailMembers: r.Intn(2)}, MaxOps: 16, Clones: true, ParseAfter: true, ExtraDefs: true, NewOps: i%2 == 0}
 		},
 		n: func(c *core.Ctx) int { return c.N(40000, 400000) }},
 	{id: "C08", total: true,
@@ -124,15 +124,21 @@ func judge(c *core.Ctx, cf cfg, h *hist.History, verbose bool) {
 	redefined := false // a later definition call may have replaced a must-fail member
 	nInitial := 0
 	for _, op := range h.Ops {
-		if op.Kind == "new" || op.Kind == "parse" || op.Kind == "tnew" {
+		if op.Kind == "new" || op.Kind == "parse" || op.Kind == "tnew" && (op.Name == "root" || op.Name == "emptyT") {
 			nInitial++
 		} else {
 			break
 		}
 	}
+	skip := make([]bool, len(h.Ops))
 	for i, op := range h.Ops {
 		c.Eval(1)
 		frozenBefore := model.Frozen(op.H)
+		orphanExec := op.IsExec() && model.Orphan(op.H)
+		if op.Kind == "tnew" && (frozenBefore || model.Orphan(op.H)) {
+			skip[i] = true
+			c.Count("new_after_execute", 1)
+		}
 		var target *template.Template
 		if op.IsExec() && op.H >= 0 && op.H < len(e.Vars) && e.Vars[op.H] != nil {
 			target = e.Vars[op.H]
@@ -218,8 +224,12 @@ func judge(c *core.Ctx, cf cfg, h *hist.History, verbose bool) {
 			if !res.IsErr {
 				okExecs++
 			}
-			if cf.equality || cf.sticky {
-				ref := hist.Reference(h, real, i)
+			if orphanExec {
+				// a template made by New after the first execution is not a member of the
+				// set; what executing the handle itself gives is not specified
+				c.Count("executions_of_handles_made_by_new_after_execute", 1)
+			} else if cf.equality || cf.sticky {
+				ref := hist.Reference(h, real, i, skip)
 				if ref.Panic != "" {
 					c.Count("reference_panics", 1)
 				} else {
